@@ -198,14 +198,18 @@ def run_runner(binary, cases_path, findings_path, n_cases, case_timeout=20.0, to
         except (OSError, ValueError):
             raise ToolError("runner died (exit %s) without a current case: %s" % (proc.returncode, err[-2000:]))
         what = reason or ("abort(exit %s)" % proc.returncode)
-        aborted.append({"case": cid, "check": "process", "props": ["C05"],
-                        "detail": {"what": what, "stderr": err[-600:]}})
-        with open(findings_path, "a") as f:
-            f.write(json.dumps(aborted[-1]) + "\n")
+        if proc.returncode == 3 and reason is None:
+            aborted.append(None)      # the runner's own watchdog recorded the hang
+        else:
+            aborted.append({"case": cid, "check": "process", "props": ["C05"],
+                            "detail": {"what": what, "stderr": err[-600:]}})
+            with open(findings_path, "a") as f:
+                f.write(json.dumps(aborted[-1]) + "\n")
         start = cid + 1
         if start >= n_cases or len(aborted) > 200:
             break
     findings, notes, summary = [], [], {"cases": 0, "counts": {}, "skipped": {}}
+    per_pid = {}
     with open(findings_path) as f:
         for ln in f:
             ln = ln.strip()
@@ -213,15 +217,17 @@ def run_runner(binary, cases_path, findings_path, n_cases, case_timeout=20.0, to
                 continue
             j = json.loads(ln)
             if j.get("summary"):
-                summary["cases"] += j["cases"]
-                for k, v in j["counts"].items():
-                    summary["counts"][k] = summary["counts"].get(k, 0) + v
-                for k, v in j["skipped"].items():
-                    summary["skipped"][k] = summary["skipped"].get(k, 0) + v
+                per_pid[j.get("pid", 0)] = j       # the last (partial or final) summary of each process
             elif "note" in j:
                 notes.append(j)
             else:
                 findings.append(j)
+    for j in per_pid.values():
+        summary["cases"] += j["cases"]
+        for k, v in j["counts"].items():
+            summary["counts"][k] = summary["counts"].get(k, 0) + v
+        for k, v in j["skipped"].items():
+            summary["skipped"][k] = summary["skipped"].get(k, 0) + v
     return findings, notes, summary
 
 
